@@ -89,7 +89,7 @@ var randFuncs = map[string]string{
 	"Int63n": "RandInt63n", "Perm": "RandPerm", "Shuffle": "RandShuffle", "Seed": "RandSeed", "Read": "RandRead",
 }
 
-var syncTypes = map[string]string{"Mutex": "Mutex", "RWMutex": "RWMutex", "Once": "Once", "Pool": "Pool"}
+var syncTypes = map[string]string{"Mutex": "Mutex", "RWMutex": "RWMutex", "Once": "Once", "Pool": "Pool", "Map": "SyncMap"}
 
 // functions/types that the simulator does not model: their presence in the
 // code under test stops the check (exit 3) instead of letting it pass blind.
@@ -101,7 +101,7 @@ var unmodelledFuncs = map[string]bool{
 	"time.After": true, "time.NewTimer": true, "time.Tick": true, "time.AfterFunc": true, "time.NewTicker": true,
 	"crypto/rand.Read": true, "crypto/rand.Int": true,
 }
-var unmodelledSyncTypes = map[string]bool{"WaitGroup": true, "Cond": true, "Map": true}
+var unmodelledSyncTypes = map[string]bool{"WaitGroup": true, "Cond": true}
 
 type rewriter struct {
 	fset  *token.FileSet
